@@ -331,6 +331,16 @@ func (o Op) Coq() string {
 		return "TimeoutOp"
 	case "skipbody":
 		return "SkipBodyOp"
+	case "resetclose":
+		return "ResetConnClose"
+	case "delconn":
+		return "DelHdrConn"
+	case "error":
+		return "(RespReset " + hlib.Z(int64(o.N)) + ")"
+	case "reqclose":
+		return "ReqSetConnClose"
+	case "timeoutclose":
+		return "TimeoutRespClose"
 	default:
 		return "OtherOp"
 	}
@@ -646,6 +656,20 @@ func RunScenario(sc Scenario) Result {
 					ctx.TimeoutError("t")
 				case "skipbody":
 					ctx.Response.SkipBody = true
+				case "resetclose":
+					ctx.Response.Header.ResetConnectionClose()
+				case "delconn":
+					ctx.Response.Header.Del("Connection")
+				case "error":
+					ctx.Error("e"+strconv.Itoa(num), o.N)
+				case "reqclose":
+					ctx.Request.Header.SetConnectionClose()
+				case "timeoutclose":
+					var tr fasthttp.Response
+					tr.SetStatusCode(fasthttp.StatusRequestTimeout)
+					tr.SetBodyString("tc")
+					tr.SetConnectionClose()
+					ctx.TimeoutErrorWithResponse(&tr)
 				case "shutdown":
 					go srv.Shutdown() //nolint:errcheck
 					for i := 0; i < 2000 && !fasthttp.VerifServerStopping(srv); i++ {
@@ -845,12 +869,14 @@ func sameConn(c net.Conn, conn *Conn) bool {
 // ---------- request grammar ----------
 
 type Req struct {
-	Method string   `json:"m,omitempty"`    // default GET
-	V10    bool     `json:"v10,omitempty"`  // HTTP/1.0
-	Conn   []string `json:"conn,omitempty"` // one Connection line per entry
-	Body   hlib.B   `json:"body,omitempty"` // sent with Content-Length
-	Expect bool     `json:"expect,omitempty"`
-	Raw    hlib.B   `json:"raw,omitempty"` // if set, these bytes instead
+	Method  string   `json:"m,omitempty"`    // default GET
+	V10     bool     `json:"v10,omitempty"`  // HTTP/1.0
+	Conn    []string `json:"conn,omitempty"` // one Connection line per entry
+	ConnKey string   `json:"ckey,omitempty"` // spelling of the field name (default "Connection")
+	NoSP    bool     `json:"nosp,omitempty"` // "Connection:value" without the space
+	Body    hlib.B   `json:"body,omitempty"` // sent with Content-Length
+	Expect  bool     `json:"expect,omitempty"`
+	Raw     hlib.B   `json:"raw,omitempty"` // if set, these bytes instead
 }
 
 // Bytes renders request number idx (1-based): its target is "/r<idx>".
@@ -869,7 +895,15 @@ func (r Req) Bytes(idx int) []byte {
 	var b bytes.Buffer
 	fmt.Fprintf(&b, "%s /r%d HTTP/%s\r\nHost: h\r\n", m, idx, v)
 	for _, c := range r.Conn {
-		fmt.Fprintf(&b, "Connection: %s\r\n", c)
+		k := r.ConnKey
+		if k == "" {
+			k = "Connection"
+		}
+		sp := " "
+		if r.NoSP {
+			sp = ""
+		}
+		fmt.Fprintf(&b, "%s:%s%s\r\n", k, sp, c)
 	}
 	if len(r.Body) > 0 || m == "POST" || m == "PUT" {
 		fmt.Fprintf(&b, "Content-Length: %d\r\n", len(r.Body))
